@@ -143,7 +143,7 @@ METHOD_ALIASES = {
     "mean": "np.mean",
     "any": "np.any",
     "all": "np.all",
-    "flatten": "np.ravel",
+    "flatten": "np.flatten",
     "ravel": "np.ravel",
     "reshape": "np.reshape",
     "transpose": "np.transpose",
